@@ -106,6 +106,24 @@ int main(int argc, char** argv) {
         rlen = got; for (long k = 0; k < got; k++) { rsum += rbuf[k]; if (got <= 64) rdata[rn++] = rbuf[k]; }
       }
       emit("read", o, n, 0, hc_exc, r);
+    } else if (hc_is(0, "bigseek")) {
+      /* bigseek <o> <a> <b> : seek to a * 2^20 + b (beyond 2^31, beyond 2^32: a sparse region past the end), ask where the stream is,
+         and come back to where it was; the answer is logged in the same two parts (the specification's integers have 32 bits) */
+      long long a = hc_int(2), b = hc_int(3), target = a * (1LL << 20) + b; volatile long long r = -1;
+      long back = ((struct File*)f)->file ? ftell(((struct File*)f)->file) : 0; const char* x1 = "";
+      HC_TRY(sseek(f, target, SEEK_SET); r = stell(f)); x1 = hc_exc;
+      long long libc = ((struct File*)f)->file ? (long long)ftello(((struct File*)f)->file) : -1;
+      if (((struct File*)f)->file) { fseek(((struct File*)f)->file, back, SEEK_SET); }
+      ev_begin("bigseek"); ev_int("o", o); ev_int("a", a); ev_int("b", b); ev_str("exc", x1); ev_str("msg", hc_msg);
+      ev_int("hi", r >> 20); ev_int("lo", r & ((1LL << 20) - 1)); ev_int("same", r == libc ? 1 : 0);
+      ev_int("nopen", n_fopen); ev_int("nclose", n_fclose);
+      ev_arr_begin("st");
+      for (int i = 1; i < MAXO; i++) if (fobj[i]) {
+        struct File* g = fobj[i];
+        ev_obj_begin(); ev_int("o", i); ev_int("open", g->file ? 1 : 0); ev_int("pos", g->file ? (long long)ftell(g->file) : -1);
+        ev_int("ceof", g->file ? (feof(g->file) ? 1 : 0) : -1); ev_obj_end();
+      }
+      ev_arr_end(); ev_int("line", cur_line); ev_end();
     } else if (hc_is(0, "seek")) { HC_TRY(sseek(f, hc_int(2), (int)hc_int(3))); emit("seek", o, hc_int(2), hc_int(3), hc_exc, 0); }
     else if (hc_is(0, "tell")) { volatile long long r = -1; HC_TRY(r = stell(f)); emit("tell", o, 0, 0, hc_exc, r); }
     else if (hc_is(0, "eof")) { volatile long long r = -1; HC_TRY(r = seof(f) ? 1 : 0); emit("eof", o, 0, 0, hc_exc, r); }
